@@ -1,6 +1,6 @@
 use std::{fmt::Debug, time::Duration};
 
-use bytes::{BufMut, BytesMut};
+use bytes::{Buf, BufMut, Bytes, BytesMut};
 use if_chain::if_chain;
 use tokio::{
     io::{AsyncRead, AsyncReadExt, AsyncWrite, AsyncWriteExt},
@@ -31,6 +31,13 @@ pub struct Framed {
     codec: Codec,
     buffer: BytesMut,
     verify_version: bool,
+
+    // A keepalive reply that still has to be (completely) sent, and the keepalive packet that is
+    // handed to the caller once it has been. Both live here, rather than in the future returned by
+    // `read`, so that dropping that future (i.e. within a select!) neither loses the packet nor
+    // leaves a partial frame on the wire.
+    pending_pong: Bytes,
+    pending_keepalive: Option<Packet>,
 }
 
 impl Framed {
@@ -43,6 +50,8 @@ impl Framed {
             codec,
             buffer,
             verify_version: false,
+            pending_pong: Bytes::new(),
+            pending_keepalive: None,
         }
     }
 
@@ -89,9 +98,24 @@ impl Framed {
         Ok(size)
     }
 
+    /// Finish sending a keepalive reply that a previous (possibly cancelled) call started.
+    /// write_all_buf advances `pending_pong` by whatever was written, so this is safe to cancel.
+    async fn flush_pending_pong(&mut self) -> Result<()> {
+        if self.pending_pong.has_remaining() {
+            self.inner.write_all_buf(&mut self.pending_pong).await?;
+        }
+
+        Ok(())
+    }
+
     /// Asynchronously wait for a packet from the inner network.
     pub async fn read(&mut self) -> Result<Packet> {
         loop {
+            self.flush_pending_pong().await?;
+            if let Some(packet) = self.pending_keepalive.take() {
+                return Ok(packet);
+            }
+
             if_chain! {
                 if !self.buffer.is_empty();
                 if let Some(packet) = self.codec.decode(&mut self.buffer)?;
@@ -104,7 +128,9 @@ impl Framed {
                     // keepalive
                     if let Some(pong) = packet.maybe_pong() {
                         tracing::debug!("Ping? Pong!");
-                        self.write(pong).await?;
+                        self.pending_pong = self.codec.encode(&pong)?;
+                        self.pending_keepalive = Some(packet);
+                        continue;
                     }
 
                     return Ok(packet);
@@ -138,6 +164,9 @@ impl Framed {
 
     /// Asynchronously write a packet to the inner network.
     pub async fn write<P: Into<Packet>>(&mut self, packet: P) -> Result<()> {
+        // never interleave a frame with a partially sent keepalive reply
+        self.flush_pending_pong().await?;
+
         let mut buf = self.codec.encode(&packet.into())?;
         if !buf.is_empty() {
             self.inner.write_all_buf(&mut buf).await?;
